@@ -1,6 +1,7 @@
 package types
 
 import (
+	clienttypes "github.com/teleport-network/teleport/x/xibc/core/client/types"
 	"github.com/teleport-network/teleport/x/xibc/exported"
 
 	sdk "github.com/cosmos/cosmos-sdk/types"
@@ -14,7 +15,7 @@ func (h Header) ClientType() string {
 }
 
 func (h Header) GetHeight() exported.Height {
-	return nil
+	return clienttypes.Height{}
 }
 
 func (h Header) ValidateBasic() error {
